@@ -11,7 +11,9 @@ mod codec;
 mod compile;
 mod compile_ext;
 mod dynval;
+mod emit;
 mod options;
+mod perm;
 mod files;
 mod proj_c03;
 mod proj_c04;
@@ -24,6 +26,9 @@ mod proj_c20;
 #[path = "/repo/slicec/src/definition_types.rs"]
 #[allow(dead_code, unused_imports)]
 mod definition_types;
+#[path = "/repo/slicec/src/slice_file_converter.rs"]
+#[allow(dead_code, unused_imports)]
+mod slice_file_converter;
 
 use codec::CaseResult;
 use std::collections::{BTreeMap, HashSet};
@@ -66,7 +71,9 @@ fn run_case(engine: &str, f: &[&str]) -> CaseResult {
         ("buffers", ["src", _fam, buf, ops, exp]) => buffers::run_src(buf, ops, exp),
         ("codec", ["skip", _fam, hx, exp]) => codec::run_skip(hx, exp),
         ("codec", ["reply", _fam, hx, exp]) => codec::run_reply(hx, exp),
+        ("emit", [op @ ("emit" | "emitc"), fam, format, files, diags, exp]) => emit::run_emit(op, fam, format, files, diags, exp),
         ("files", ["tree", _fam, tree, argv, exp]) => files::run_tree(tree, argv, exp),
+        ("compile", ["perm", _fam, opts, files, orders, exp]) => perm::run_perm(opts, files, orders, exp),
         ("compile", ["compile", _fam, proj, opts, files, exp]) => compile::run_compile(proj, opts, files, exp),
         ("options", ["spec", _fam, hx, exp]) => options::run_spec(hx, exp),
         ("options", ["specd", _fam, hx, exp]) => options::run_spec_detached(hx, exp),
